@@ -3,7 +3,6 @@ import os
 import random
 
 _inst = random._inst           # the hidden global generator: consuming it is not logged by the wrappers
-_VARIANT = int(os.environ.get("VERIF_VARIANT", "0"))
 _calls = [0]
 
 
@@ -11,15 +10,21 @@ def burn(x):
     """Returns x unchanged, but consumes some of the GLOBAL random stream (Python's and NumPy's)
     on every call – stands for randomness used internally while checking.  How often it is called
     during scene generation depends on the order in which the checker visits the requirements
-    (timing), so without the save/restore around checking the user-visible stream would differ
-    between processes."""
+    (timing), and HOW MUCH it consumes per call during scene generation is set per process by
+    VERIF_C15_BURN (0 = nothing): with the save/restore around checking neither may show in the
+    user-visible stream.  At compile time (pruning evaluates requirement expressions symbolically)
+    it consumes nothing; during a simulation (requirements are re-evaluated there, outside the
+    save/restore) it consumes a fixed, process-independent amount."""
     import numpy
     from scenic.core.distributions import needsSampling
     from scenic.core.lazy_eval import needsLazyEvaluation
+    import scenic.syntax.veneer as veneer
     if needsSampling(x) or needsLazyEvaluation(x):
-        return x          # compile time (pruning evaluates the expression symbolically): do nothing
+        return x          # compile time: do nothing
     _calls[0] += 1
-    for _ in range(3):
+    amount = 1 if veneer.currentSimulation is not None else int(os.environ.get("VERIF_C15_BURN", "1"))
+    for _ in range(3 * amount):
         _inst.random()
-    numpy.random.random(2)
+    if amount:
+        numpy.random.random(2 * amount)
     return x
